@@ -94,6 +94,78 @@ def proxyStart : List (List Bool) → List (List Bool) × Bool
     if (startShardTop s).2 then ((startShardTop s).1 :: (proxyStart rest).1, (proxyStart rest).2)
     else ((startShardTop s).1 :: rest.map (fun r => r.map (fun _ => false)), false)
 
+/-! ## the public handler: `proxyapi.grpcV1.FetchAsyncSearchResult` -/
+
+/-- `Ingestor.FetchAsyncSearchResult` with the request's `Offset`: the code as found merges at `r.Size` and ignores the
+offset; the repaired code merges at `r.Offset+r.Size` and paginates (`paginates`, re-extracted) -/
+def proxyFetchP (paginates : Bool) (desc : Bool) (offset size hi : Nat) (shards : List (List ROut)) : PFetch :=
+  if paginates then
+    match proxyFetch desc (offset + size) hi shards with
+    | .ok d q => .ok d { q with ids := (q.ids.drop offset).take size }
+    | r => r
+  else proxyFetch desc size hi shards
+
+/-- `makeProtoDocs(&resp.QPR, nil)`: one document entry per ID.  The code as found calls `docs.Next()` on the nil
+iterator for every ID - a nil-interface method call, i.e. a panic as soon as there is one ID; the repaired code
+(`nilSafe`, re-extracted) emits the IDs with empty data.  `none` = panic. -/
+def protoDocsNil (nilSafe : Bool) (ids : List Nat) : Option (List Nat) :=
+  if nilSafe then some ids else if ids.isEmpty then some [] else none
+
+inductive HResp where
+  /-- `docs` = the `Id`s of `Response.Docs`; `Total` is the constant 0 -/
+  | ok (done : Bool) (docs : List Nat) (q : QPR)
+  | notFound
+  | error
+  | panic
+deriving Repr, DecidableEq
+
+def handlerFetch (nilSafe paginates : Bool) (desc : Bool) (offset size hi : Nat) (shards : List (List ROut)) : HResp :=
+  match proxyFetchP paginates desc offset size hi shards with
+  | .ok d q =>
+    match protoDocsNil nilSafe q.ids with
+    | some docs => .ok d docs q
+    | none => .panic
+  | .notFound => .notFound
+  | .error => .error
+  | .panic => .panic
+
+/-- with the repaired `makeProtoDocs` the handler never panics on IDs and lists exactly the merged IDs, one entry each -/
+theorem handlerFetch_docs (paginates : Bool) (desc : Bool) (offset size hi : Nat) (shards : List (List ROut))
+    (d : Bool) (docs : List Nat) (q : QPR) (h : handlerFetch true paginates desc offset size hi shards = .ok d docs q) :
+    docs = q.ids ∧ proxyFetchP paginates desc offset size hi shards = .ok d q := by
+  unfold handlerFetch at h
+  cases hp : proxyFetchP paginates desc offset size hi shards with
+  | ok d' q' =>
+    simp only [hp, protoDocsNil, if_true, HResp.ok.injEq] at h
+    obtain ⟨rfl, rfl, rfl⟩ := h
+    exact ⟨rfl, rfl⟩
+  | notFound => simp [hp] at h
+  | error => simp [hp] at h
+  | panic => simp [hp] at h
+
+/-- the repaired proxy pages the merged list: IDs `[offset, offset+size)` of the duplicate-free ordered union -/
+theorem proxyFetchP_page (desc : Bool) (offset size hi : Nat) (shards : List (List ROut)) (d : Bool) (q : QPR)
+    (h : proxyFetchP true desc offset size hi shards = .ok d q) :
+    ∃ rs : List (Bool × QPR), gather shards = .answers rs ∧
+      q.ids = ((sd desc (rs.flatMap (·.2.ids))).drop offset).take size := by
+  unfold proxyFetchP at h
+  simp only [if_true] at h
+  unfold proxyFetch at h
+  cases hg : gather shards with
+  | failed => simp [hg] at h
+  | panicked => simp [hg] at h
+  | answers rs =>
+    refine ⟨rs, rfl, ?_⟩
+    cases rs with
+    | nil => simp [hg] at h
+    | cons r rs' =>
+      simp only [hg, PFetch.ok.injEq] at h
+      rw [← h.2]
+      simp only [mergeQPRs_ids, allIds, List.nil_append, List.flatMap_map]
+      rw [List.drop_take, List.take_take]
+      congr 1
+      omega
+
 /-! ## soundness of `done` -/
 
 /-- replicas before the one that accepted the search do not know it (`NotFound`), and the accepting replica has
